@@ -73,7 +73,14 @@ func vp_C02_sign_verify() {
 	ids, err := ListKeyIDs("signer.example", signed)
 	vpAssert("key-id-listed", err == nil && len(ids) == 1 && ids[0] == "ed25519:k1")
 	// wrong name / key id / key
-	vpAssert("wrong-name-fails", VerifyJSON("other.example", "ed25519:k1", pub, signed) != nil)
+	// every other name: unrelated, differing only in letter case, with a trailing dot, and one whose first and last
+	// byte are solver-chosen (anything but the signer's)
+	for _, other := range []string{"other.example", "Signer.example", "SIGNER.EXAMPLE", "signer.examplE", "signer.example."} {
+		vpAssert("wrong-name-fails", VerifyJSON(other, "ed25519:k1", pub, signed) != nil)
+	}
+	first, last := vpNondetU8("othername.first"), vpNondetU8("othername.last")
+	vpAssume(first >= 0x21 && first < 0x7F && last >= 0x21 && last < 0x7F && (first != 's' || last != 'e'))
+	vpAssert("wrong-name-fails", VerifyJSON(string([]byte{first})+"igner.exampl"+string([]byte{last}), "ed25519:k1", pub, signed) != nil)
 	vpAssert("wrong-keyid-fails", VerifyJSON("signer.example", "ed25519:k2", pub, signed) != nil)
 	vpAssert("wrong-key-fails", VerifyJSON("signer.example", "ed25519:k1", pub2, signed) != nil)
 
